@@ -11,7 +11,7 @@ EXPLICIT_FMT = False
 SOURCES = ["BIOVIA CTfile Formats (2016), chapter 'The Connection Table [CTAB] (V2000)': counts line aaabbblllfffcccsssxxxrrrpppiiimmmvvvvvv, "
            "atom block xxxxx.xxxxyyyyy.yyyyzzzzz.zzzz aaaddcccssshhhbbbvvvHHHrrriiimmmnnneee, bond block 111222tttsssxxxrrrccc; "
            "SD file: molfile + optional data items + $$$$"]
-CLASSES = ["small", "touching_counts", "touching_bonds", "wide_coords", "negative_wide", "no_bonds", "data_items", "trajectory"]
+CLASSES = ["small", "touching_counts", "touching_bonds", "wide_coords", "negative_wide", "no_bonds", "data_items", "trajectory", "blank_titles"]
 
 
 def _frame(rng, natom, nbond, mag, title, data_items=False):
@@ -51,6 +51,8 @@ def generate(rng, klass):
         fr = [_frame(rng, int(rng.integers(1, 6)), 0, 9.0, "no bonds")]
     elif klass == "data_items":
         fr = [_frame(rng, 4, 2, 9.0, "with data items", data_items=True)]
+    elif klass == "blank_titles":
+        fr = [_frame(rng, int(rng.integers(2, 7)), int(rng.integers(0, 4)), 9.0, "" if i % 2 == 0 else f"frame {i}") for i in range(int(rng.integers(2, 6)))]
     else:
         fr = [_frame(rng, int(rng.integers(2, 7)), int(rng.integers(0, 4)), 9.0, f"frame {i} id={i}", data_items=(i % 2 == 1))
               for i in range(int(rng.integers(2, 6)))]
